@@ -162,6 +162,8 @@ class TracepointConfigService:
         :return: the new TracePointConfig
         """
         config = build_trigger(str(uuid.uuid4()), path, line, args, watches, metrics)
+        if config is None:
+            raise ValueError("Cannot interpret tracepoint arguments: %s" % args)
         self._custom.append(config)
         self.__trigger_update(None, None)
         return config.id
